@@ -282,9 +282,33 @@ def g_validation(tier, seed):
     return out
 
 
+def _seq(temporaries):
+    def g(tier, seed):
+        from checks.c04 import seq_group
+
+        def pre(v):
+            cm = -177 + (v[2] - 1) * 6
+            core.CTX.assume((v[1] - cm <= 30) & (v[1] - cm >= -30))
+        return seq_group(PID, 'O2', 'geo2grid%s' % (' (temporary ellipsoid objects)' if temporaries else ''),
+                         lambda cv, v, e: cv.geo2grid(v[0], v[1], v[2], e), (('lat', -80, 84), ('lon', -180, 180), ('zone', 1, 60, True)),
+                         'oracles.seq:convert_sequence', '@@none@@', tier, temporaries, mods=lambda: _mods()[:2], dom=TC.DOM,
+                         ell_box=((TC.A_LO, TC.A_HI), (TC.F_LO, TC.F_HI)), around=TC.summaries, loop_bound=2, timeout_s=15,
+                         extra_args={'what': 'geo2grid'}, pre=pre)
+    return g
+
+
+def g_argforms(tier, seed):
+    from checks.c04 import argforms_generic
+    import geodepy.constants as gc
+    import geodepy.convert as cv
+    return argforms_generic(PID, 'O2', 'geo2grid', lambda cv_, v: cv_.geo2grid(v[0], v[1], 31), (('lat', 0, 80), ('lon', 0, 6)), tier,
+                            lambda: (gc, cv), around=TC.summaries, domain_errors=(ValueError,))
+
+
 def groups(tier):
     cases = CASES_QUICK if tier == 'quick' else CASES_THOROUGH
-    gs = [('coefficients', g_coefficients), ('validation', g_validation)]
+    gs = [('coefficients', g_coefficients), ('validation', g_validation), ('sequence', _seq(False)), ('sequence_temporaries', _seq(True)),
+          ('argforms', g_argforms)]
     for c in cases:
         gs.append((('case_%s_%s_%s_%s' % tuple(str(x) for x in c)).replace(' ', '').replace("'", ''), _mk_group(c)))
     return gs
